@@ -58,3 +58,15 @@ CLAIMS["C11"] = dict(
     text="For every rename table and every ordered sdkconfig file over the old/new names it mentions (=v and `is not set` forms), loading the file into a fresh real Kconfig is compared with loading its translation (old -> new, y/n swapped for `!` renames of bools, `not set` on an inverted alias -> y; last mapping wins; names that are also defined options are not translated): option values, user values, re-written sdkconfig; deprecated names with a defined replacement must not appear in missing_syms. For every table x 5 configurations the file written with the deprecated block must load (default flag) exactly like the block-less file even when the block is edited to contradict the body, and with load_deprecated=True every alias evaluates (eval_string) to what was written.",
     note="Hand-written files carry no `# default:` markers before deprecated names; a mapping to an undefined option only has to load without raising.",
 )
+CLAIMS["C19"] = dict(
+    category="exploration",
+    technique="bounded exhaustive enumeration of directory layouts x rename/defaults file placements x every ordered argument selection, driven through the real _prepare_deprecated_options + check_deprecated_options; memo-free scope specification as oracle; CLI conformance replay",
+    text="Over a fixed 7-place skeleton (IDF root with/without project(), component, projects pa / pa/nested / pb, main, orphan dir) every placement of <=3 rename files and <=3 defaults files for options X/Y, with/without IDF_PATH, explicit rename files and --includes variants, and every non-empty ordered selection of the defaults files as argument list is executed in-process exactly as kconfcheck.main does; each per-file verdict must equal a memo-free specification of 'global scope U nearest enclosing project' and be identical across all orders and subsets of one invocation. 10 (quick) / 40 (thorough) layouts are replayed through the real `python -m kconfcheck --check deprecated`.",
+    note="IDF root is never a project even if its CMakeLists calls project() (as the shipped fixtures assume); verdict oracle skipped for defaults files in the orphan directory under such a root (order independence still checked).",
+)
+CLAIMS["C20"] = dict(
+    category="exploration",
+    technique="bounded exhaustive enumeration of ESP-IDF-idiom trees (every dependency expression of depth <=1/2 in every position) x targets x all assignments of the user-settable options; real docs generator instrumented at _prepare_cond; visibility, condition-equivalence and anchor oracles",
+    text="For every expression of the alphabet placed as depends/if/prompt condition/menu depends/visible if/choice/menuconfig/conditional range-default-select-set, for targets chipa and chipb, the real kconfgen.write_docs is run; (a) every prompted option or choice that the real evaluator shows visible in SOME assignment of the user-settable options must have its anchor; (b) for every recorded (condition, stripped deps, shown condition) and every assignment, value(cond) AND deps == value(shown) AND deps under the real expr_value; (c) every :ref: target is an anchor defined in the same text.",
+    note="Undefined symbols as relation operands are not generated (documents silent); forced-by rows filtered before _prepare_cond are not covered by (b).",
+)
